@@ -365,10 +365,11 @@ func runAdder(fs *flag.FlagSet, args []string) {
 		if *maxCells > 0 {
 			mc = *maxCells
 		} else if rng.Intn(2) == 0 {
-			mc = []int{2, 4, 8}[rng.Intn(3)]
+			// (limits that are not powers of two: the last doubling overshoots, the fully grown table is LONGER than maxCells)
+			mc = []int{2, 4, 8, 3, 5, 6}[rng.Intn(6)]
 		}
 		if *cf.kind == "grow" && mc < 8 {
-			mc = 64 // let the table grow through several steps
+			mc = []int{64, 64, 48, 24}[rng.Intn(4)] // let the table grow through several steps
 		}
 		adder.VerifSetMaxCells(mc)
 		family := *cf.kind
@@ -452,7 +453,15 @@ func runAdder(fs *flag.FlagSet, args []string) {
 		fmt.Fprintf(out, "end\n")
 		msg := ""
 		if res.Budget || res.Deadlock {
-			msg = fmt.Sprintf("C02 run did not terminate (budget=%v deadlock=%v)", res.Budget, res.Deadlock)
+			tag := "C02"
+			for _, th := range ths {
+				for _, o := range th.ops {
+					if o.kind == "store" || o.kind == "reset" || o.kind == "sar" {
+						tag = "C02,C16" // an update that never returns on an adder that was set / cleared: "later updates accumulate on top" (C16) as well
+					}
+				}
+			}
+			msg = fmt.Sprintf("%s run did not terminate (budget=%v deadlock=%v)", tag, res.Budget, res.Deadlock)
 		}
 		if r.panic != "" {
 			msg = r.panic // untagged: reported by every check that runs this program
